@@ -1,5 +1,6 @@
 """C17 — reject / return / cover classification follows the codes present, consistently."""
 from .common import Report
+from . import accept
 from . import classify
 
 LEVEL = "other"
@@ -17,4 +18,5 @@ def run(F, tier):
     r2 = classify.r2(rep, F)
     rep.sample({"literals": r.get("literals")})
     rep.sample({"classifying_arms": r2.get("classifying_arms")})
+    accept.u6(rep, F, "predicates")
     return rep
